@@ -2,7 +2,10 @@
 
 Theorems: FinVerif/Props/C06a.lean (leg loops = discounted sums; sign; linearity; past flows),
 C06b.lean (swap = fixed + float; par rate; telescoping float leg), C06c.lean (deposit / FRA / OIS par
-rate: as coded, with the kernel-checked counterexamples behind the known findings), C06d.lean (cached tables).
+rate: as coded, with the kernel-checked counterexamples behind the known findings), C06d.lean (cached tables),
+C06e.lean (hand model's loop bodies / small methods = the functions generated from the source; liveness filter per flow),
+C06f.lean (telescoping with fixing and principal, rescaling invariance, value = (cpn − par)·pv01·N, basis swaps, flat annuity),
+C06g.lean (equity leg = discounted sum; notional array repeats, not tiles; equity swap worth zero at inception).
 Correspondence: implementation vs hand model (Driver/C06) and vs the source-independent spec
 (Driver/C06Spec) on the schedule / year fractions / discount factors the harness recomputes itself
 through the public API (Schedule, DayCount, Calendar, curve.df) — never from the leg's own tables.
@@ -20,15 +23,20 @@ import dates as D   # noqa: E402
 from floatcmp import f2b, b2f  # noqa: E402
 from parallel import driver_parallel  # noqa: E402
 
-GEN = []
-PROPS = ['FinVerif.Props.C06a', 'FinVerif.Props.C06b', 'FinVerif.Props.C06c', 'FinVerif.Props.C06d']
+# Gen/SwapsF, Gen/SwapsR: loop bodies / after-loop blocks / pv01 / swap_rate cut out of the source by tools/py2lean/registry/swaps.py;
+# Gen/RatesR (shared with C01): IborDeposit.value, IborFRA.value.  Props/C06e proves hand model = generated.
+GEN = ['SwapsF', 'SwapsR', 'RatesR']
+PROPS = ['FinVerif.Props.C06a', 'FinVerif.Props.C06b', 'FinVerif.Props.C06c', 'FinVerif.Props.C06d',
+         'FinVerif.Props.C06e', 'FinVerif.Props.C06f', 'FinVerif.Props.C06g']
 DRIVERS = ['FinVerif.Driver.C06']
+GEN_DRIVERS = ['FinVerif.Driver.C06Gen']      # folds of the generated loop bodies (needs Gen/SwapsF)
 SPEC_DRIVERS = ['FinVerif.Driver.C06Spec']
-EXTRA_FILES = ['FinVerif/Lemmas/C06.lean', 'FinVerif/Model/C06.lean', 'FinVerif/Spec/C06.lean']
+EXTRA_FILES = ['FinVerif/Lemmas/C06.lean', 'FinVerif/Model/C06.lean', 'FinVerif/Model/C06x.lean', 'FinVerif/Spec/C06.lean',
+               'FinVerif/Spec/C06x.lean']
 
 RTOL = 1e-10
 
-RULE = ('one case = one leg / swap / deposit / FRA with seed-drawn effective date (biased to month ends, leap days, '
+RULE = ('one case = one leg / swap / basis swap / equity swap (equity and rate frequencies drawn independently) / deposit / FRA with seed-drawn effective date (biased to month ends, leap days, '
         'IMM dates), termination (tenor or explicit date, incl. stubs), frequency (ANNUAL..MONTHLY), every day count, '
         'calendar, adjustment and date-generation rule, EOM flag, payment lag, notional / coupon / spread / principal '
         'of both signs, valuation date before / on / after the effective date (incl. exactly on payment dates and '
@@ -247,13 +255,21 @@ def parse_floats(s):
 class Batch:
     """Ops queued for the two drivers, with the callback that judges each answer."""
 
+    gen_ok = True      # set by run(): the generated-loop driver built
+
     def __init__(self):
         self.model_ops, self.model_cb = [], []
         self.spec_ops, self.spec_cb = [], []
+        self.gen_ops, self.gen_cb = [], []
 
     def model(self, op, cb):
         self.model_ops.append(op)
         self.model_cb.append(cb)
+
+    def gen(self, op, cb):
+        """op for Driver/C06Gen (the loop bodies generated from the source, folded)"""
+        self.gen_ops.append(op)
+        self.gen_cb.append(cb)
 
     def spec(self, op, cb):
         self.spec_ops.append(op)
@@ -274,6 +290,13 @@ class Batch:
                     cb(o, op)
             except C.DriverError as e:
                 ctx.broke(f'model driver failed: {str(e)[:300]}')
+        if self.gen_ops and Batch.gen_ok:
+            try:
+                outs = driver_parallel('C06Gen', self.gen_ops, chunk=4000)
+                for o, cb, op in zip(outs, self.gen_cb, self.gen_ops):
+                    cb(o, op)
+            except C.DriverError as e:
+                ctx.broke(f'generated-loop driver failed: {str(e)[:300]}')
         self.__init__()
 
 
@@ -498,7 +521,17 @@ def fixed_case(ctx, E, rng, pool, B, T, tag):
                     bad = True
         if bad:
             tie_broken(ctx, T, comp, f'value/rows model≠implementation (model pv {xs[0]}, impl {v}) on {case}')
-    B.model(f'FIX {int(p["isPay"])} {f2b(cpn)} {f2b(N)} {f2b(P)} {ser(vd)} {enc_periods(periods)} {dfT.enc()}', cb_fix)
+    payload = f'{int(p["isPay"])} {f2b(cpn)} {f2b(N)} {f2b(P)} {ser(vd)} {enc_periods(periods)} {dfT.enc()}'
+    B.model('FIX ' + payload, cb_fix)
+
+    def cb_gfx(o, op):
+        xs = parse_floats(o) if not o.startswith(('E:', 'bad')) else None
+        ok = xs is not None and len(xs) == 1 + 5 * len(impl_rows) and close(xs[0], v, scale) and all(
+            close(xs[1 + 5 * i + j], r[j], scale if j >= 3 else 0.0) for i, r in enumerate(impl_rows) for j in (1, 2, 3, 4))
+        if not ok:
+            tie_broken(ctx, T, comp, f'fold of the GENERATED loop body (Gen/SwapsF.fixed_leg_step/_tail) ≠ implementation '
+                                     f'(answer `{o[:40]}`, impl {v}) on {case}')
+    B.gen('GFX ' + payload, cb_gfx)
 
     flows = [(ser(pay), yf, cpn, N) for a, b, pay, yf in periods] + [(ser(periods[-1][2]), 1.0, P, N)]
 
@@ -704,8 +737,19 @@ def float_case(ctx, E, rng, pool, B, T, tag):
         if bad:
             tie_broken(ctx, T, comp, f'value/rows model≠implementation (model pv {xs[0]}, impl {v}) on {case}')
     ias_enc = [ia if ia == ia else 0.0 for ia in ias]
-    B.model(f'FLT {int(p["isPay"])} {f2b(p["spread"])} {f2b(N)} {f2b(P)} {ser(vd)} {enc_opt(ff)} '
-            f'{enc_fperiods(periods, ias_enc, notionals)} {dfT.enc()} {idxT.enc()}', cb_flt)
+    payload = (f'{int(p["isPay"])} {f2b(p["spread"])} {f2b(N)} {f2b(P)} {ser(vd)} {enc_opt(ff)} '
+               f'{enc_fperiods(periods, ias_enc, notionals)} {dfT.enc()} {idxT.enc()}')
+    B.model('FLT ' + payload, cb_flt)
+
+    def cb_gfl(o, op):
+        xs = parse_floats(o) if not o.startswith(('E:', 'bad')) else None
+        tol = (1e-4, abs(N) * 1e-4, 0.0, scale, scale)
+        ok = xs is not None and len(xs) == 1 + 5 * n and close(xs[0], v, scale) and all(
+            close(xs[1 + 5 * i + j], r[j], tol[j]) for i, r in enumerate(impl_rows) for j in range(5))
+        if not ok:
+            tie_broken(ctx, T, comp, f'fold of the GENERATED loop body (Gen/SwapsF.float_leg_step/_tail) ≠ implementation '
+                                     f'(answer `{o[:40]}`, impl {v}) on {case}')
+    B.gen('GFL ' + payload, cb_gfl)
 
     flows = [(ser(pay), yf, rows[i][0] + p['spread'], notionals[i]) for i, (a, b, pay, yf) in enumerate(periods)]
     flows.append((ser(periods[-1][2]), 1.0, P, notionals[-1]))
@@ -767,7 +811,7 @@ def float_case(ctx, E, rng, pool, B, T, tag):
 
 
 # --------------------------------------------------------------------------- swaps (IborSwap, OIS, IborBasisSwap)
-G_SMALL = 1e-10
+G_SMALL = 1e-12      # utils/global_vars.g_small (the literal in the generated swap_swap_rate; Props/C06e swapRate_is_generated)
 
 
 def leg_params(p, which):
@@ -986,6 +1030,53 @@ def swap_case(ctx, E, rng, pool, B, T, tag, kind=None):
     fenc = enc_periods(fper)
     lenc = enc_fperiods(lper, [ia if ia == ia else 0.0 for ia in ias], [N] * len(lper))
     B.model(f'SWP {int(fixedIsPay)} {f2b(cpn)} {f2b(N)} {f2b(spread)} {ser(vd)} {enc_opt(ff)} {fenc} {lenc} {dfT.enc()} {idxT.enc()}', cb)
+    # ---- the methods generated from the source (IborSwap.pv01 / swap_rate / valuation_details, OIS.pv01 / swap_rate),
+    #      evaluated on the implementation's own leg values
+    det_rate = None
+    if kind == 'ibor' and cpn != 0.0:
+        try:
+            det_rate = float(sw.valuation_details(vd, curve, pass_idx, ff)['market_rate'])
+        except Exception:  # noqa: BLE001
+            det_rate = None
+
+    def cb_gsr(o, op):
+        t = o.split()
+        if len(t) != 4:
+            tie_broken(ctx, T, comp, f'generated pv01/swap_rate answered `{o[:80]}` on {case}')
+            return
+        bad = []
+        if e01 is None and not close(b2f(t[0]), p01, 0.0, 1e-12):
+            bad.append('pv01')
+        tok = t[1] if kind == 'ibor' else t[2]
+        if esr is None and math.isfinite(sr):
+            if tok.startswith('E:') or not close(b2f(tok), sr, 1e-9, 1e-10):
+                bad.append('swap_rate')
+        elif esr == 'E:FinError' and tok != esr:
+            bad.append('swap_rate(FinError)')
+        if det_rate is not None and math.isfinite(det_rate) and not close(b2f(t[3]), det_rate, 1e-9, 1e-10):
+            bad.append('valuation_details.market_rate')
+        if bad:
+            tie_broken(ctx, T, comp, f'GENERATED pv01 / swap_rate (Gen/SwapsF) ≠ implementation on {bad} (answer `{o}`; impl pv01 {p01}/{e01}, '
+                                     f'swap_rate {sr}/{esr}, details {det_rate}) on {case}')
+    if cpn != 0.0 and vf is not None and vl is not None:
+        B.gen(f'GSR {f2b(vf)} {f2b(cpn)} {f2b(N)} {f2b(vl)} {int(not fixedIsPay)} {f2b(N)}', cb_gsr)
+    # ---- cash_settled_pv01 (flat annuity; start-index rule as coded) against the hand model
+    if kind == 'ibor':
+        fq = E.FrequencyTypes[rng.choice(FREQS)]
+        fr = rng.choice([0.0, 0.03, rng.uniform(-0.01, 0.08)])
+        from financepy.utils.frequency import annual_frequency
+        alpha = 1.0 / annual_frequency(fq)
+        cs, ecs = call(lambda: sw.cash_settled_pv01(vd, fr, fq))
+        pays_enc = f'{len(fper)} ' + ' '.join(str(ser(x[2])) for x in fper)
+
+        def cb_csh(o, op):
+            if ecs:
+                if o != ecs:
+                    tie_broken(ctx, T, comp, f'cash_settled_pv01: model `{o}` vs impl {ecs} on {case}')
+            elif o.startswith(('E:', 'bad')) or not close(b2f(o), cs, 0.0, 1e-12):
+                tie_broken(ctx, T, comp, f'cash_settled_pv01: model `{o}` vs impl {cs} on {case}')
+        B.model(f'CSH {pays_enc} {ser(p["eff"])} {ser(vd)} {f2b(alpha)} {f2b(fr)}', cb_csh)
+        T.add(comp + ':cash-pv01-vd<=eff', int(vd <= p['eff']))
     flows = [(ser(pay), yf, cpn, N) for a, b, pay, yf in fper] + \
             [(ser(pay), yf, -(lrows[i][0] + spread), N) for i, (a, b, pay, yf) in enumerate(lper)]
 
@@ -1076,6 +1167,357 @@ def basis_case(ctx, E, rng, pool, B, T, tag):
             f'{enc_fperiods(per1, [x if x == x else 0.0 for x in ia1], [N] * len(per1))} '
             f'{enc_fperiods(per2, [x if x == x else 0.0 for x in ia2], [N] * len(per2))} {dfT.enc()} {t1.enc()} {t2.enc()}', cb)
     return 1 if fut else 0
+
+
+# --------------------------------------------------------------------------- equity swap (EquitySwapLeg + SwapFloatLeg on reset notionals)
+FND_EQ = 'C06/equity-swap-rate-notional-front-aligned'
+SAFE_DCS = ['ACT_360', 'ACT_365F', 'THIRTY_E_360', 'ACT_ACT_ISDA', 'THIRTY_360_BOND']
+
+
+def enc_eperiods(periods, ias):
+    return f'{len(periods)} ' + ' '.join(f'{ser(a)} {ser(b)} {ser(pay)} {f2b(y)} {f2b(ia)}' for (a, b, pay, y), ia in zip(periods, ias))
+
+
+def own_equity(E, eper, vd, dfT, idxT, dvT, idx_dc, price, qty, notional):
+    """The harness's own reading of the equity leg: every reset period paid after the valuation date pays the change of
+    the position's value price x G x quantity, G compounded at the equity forward (index curve x dividend curve) over
+    the periods still to be paid; the first one is measured from strike x quantity.
+    Returns rows (fwd, div_fwd, eq_fwd, last_notional, amount, df, pv), index alphas, reset notional per period
+    (None for a period not paid after vd)."""
+    dcc = E.DayCount(idx_dc)
+    dfv = dfT(vd)
+    G, L = 1.0, notional
+    rows, ias, resets = [], [], []
+    for (a, b, pay, yf) in eper:
+        if pay > vd:
+            ia = float(dcc.year_frac(a, b)[0])
+            g = idxT(a) / idxT(b)
+            d = dvT(a) / dvT(b)
+            eqf = (g * d - 1.0) / ia
+            G = (1.0 + eqf * yf) * G
+            nn = price * G * qty
+            dfp = dfT(pay) / dfv
+            rows.append(((g - 1.0) / ia, (d - 1.0) / ia, eqf, L, nn - L, dfp, (nn - L) * dfp))
+            ias.append(ia)
+            resets.append(L)
+            L = nn
+        else:
+            rows.append((0.0, 0.0, 0.0, notional, 0.0, 0.0, 0.0))
+            ias.append(float('nan'))
+            resets.append(None)
+    return rows, ias, resets
+
+
+def containing_period(eper, a, b):
+    ks = [k for k, (ea, eb, _, _) in enumerate(eper) if ea <= a and b <= eb]
+    return ks[0] if len(ks) == 1 else None
+
+
+def equity_swap_case(ctx, E, rng, pool, B, T, tag):
+    comp = 'equity_swap'
+    DT, FT, ST = E.DayCountTypes, E.FrequencyTypes, E.SwapTypes
+    from financepy.utils.frequency import annual_frequency
+    from financepy.products.equity.equity_swap import EquitySwap
+    p = draw_leg_params(E, rng, ref_date(E, rng, pool))
+    zero = rng.random() < 0.35          # a case that meets the conditions of "worth zero at inception"
+    k = rng.random()
+    if k < 0.6:
+        p['term'] = rng.choice(['1Y', '18M', '2Y', '30M', '3Y', '4Y', '5Y', '15M', '21M', '27M', '7Y'])
+    p['eq_freq'] = E.FrequencyTypes[rng.choice(FREQS)]
+    if rng.random() < 0.7:              # rate leg pays as often or more often than the equity leg resets
+        m_eq = int(annual_frequency(p['eq_freq']))
+        p['rate_freq'] = E.FrequencyTypes[rng.choice([f for f in FREQS if int(annual_frequency(E.FrequencyTypes[f])) % m_eq == 0])]
+    else:
+        p['rate_freq'] = E.FrequencyTypes[rng.choice(FREQS)]
+    base_dc = DT[rng.choice(SAFE_DCS)]
+    p['eq_dc'] = base_dc if zero else rng.choice(list(DT))
+    p['rate_dc'] = base_dc if zero else rng.choice(list(DT))
+    p['eq_lag'] = 0 if zero else p['lag']
+    p['rate_lag'] = 0 if zero else rng.choice([0, 0, 1, 2, -1])
+    p['spread'] = 0.0 if zero else rng.choice([0.0, rng.uniform(-0.01, 0.02), 0.0025])
+    p['strike'] = rng.choice([80.0, 100.0, rng.uniform(5.0, 500.0)])
+    p['quantity'] = rng.choice([1.0, 100.0, 125000.0, rng.uniform(1.0, 1e5)])
+    for kk in ('freq', 'dc', 'lag', 'notional'):
+        del p[kk]
+    eqIsPay = p['isPay']
+    case = describe(p, tag=tag, product='equity_swap')
+
+    def build(isPay=None, quantity=None):
+        lt = ST.PAY if (eqIsPay if isPay is None else isPay) else ST.RECEIVE
+        return EquitySwap(p['eff'], p['term'], lt, p['eq_freq'], p['eq_dc'], p['strike'],
+                          p['quantity'] if quantity is None else quantity, p['eq_lag'], E_ReturnTypes(E).TOTAL_RETURN,
+                          p['rate_freq'], p['rate_dc'], p['spread'], p['rate_lag'], p['cal'], p['bd'], p['dg'], p['eom'])
+    impl_err = own_err = None
+    try:
+        sw = build()
+    except Exception as e:  # noqa: BLE001
+        impl_err = err_kind(e)
+    try:
+        t0 = p['term'] if not isinstance(p['term'], str) else p['eff'].add_tenor(p['term'])
+        mat = E.Calendar(p['cal']).adjust(t0, p['bd'])
+        if p['eff'] > mat:
+            raise E.FinError('Start date after maturity date')
+        q = dict(eff=p['eff'], term=mat, cal=p['cal'], bd=p['bd'], dg=p['dg'], eom=p['eom'])
+        _, eper = own_schedule(E, dict(q, freq=p['eq_freq'], dc=p['eq_dc'], lag=p['eq_lag']))
+        _, rper = own_schedule(E, dict(q, freq=p['rate_freq'], dc=p['rate_dc'], lag=p['rate_lag']))
+    except Exception as e:  # noqa: BLE001
+        own_err = err_kind(e)
+    if impl_err or own_err:
+        T.add(comp + ':ctor-error')
+        if impl_err != own_err:
+            ctx.violation(f'{comp}: constructor outcome {impl_err} but schedule/day count gives {own_err}', case,
+                          clause='constructor-error')
+        return 0
+    el, rl = sw.equity_leg, sw.rate_leg
+    # generated tables of both legs: accrual over consecutive schedule dates, yf over the accrual dates, pay = end + lag
+    class _V:      # EquitySwapLeg names its tables differently
+        pass
+    ev = _V()
+    ev.start_accrued_dts, ev.end_accrued_dts, ev.payment_dts, ev.year_fracs = el.start_accd_dts, el.end_accd_dts, el.payment_dts, el.year_fracs
+    if not (check_tables(ctx, T, comp + '.equity_leg', ev, eper, case) and check_tables(ctx, T, comp + '.rate_leg', rl, rper, case)):
+        return 0
+    strike, qty, spread = p['strike'], p['quantity'], p['spread']
+    N0 = strike * qty
+    if not close(el.notional, N0, 0.0, 1e-13) or not close(rl.notional, N0, 0.0, 1e-13) or rl.principal != 0.0:
+        ctx.violation(f'{comp}: leg notionals are not strike × quantity (or a principal is exchanged)',
+                      dict(case, equity=float(el.notional), rate=float(rl.notional)), clause='notional')
+        return 0
+    # ---- valuation date and curves (EquitySwapLeg.value insists on discount_curve.value_dt == value_dt)
+    epay = [x[2] for x in eper]
+    kv = rng.random()
+    if zero or kv < 0.45:
+        vd = p['eff']
+    elif kv < 0.55:
+        vd = p['eff'].add_days(-rng.randint(1, 200))
+    else:
+        vd = draw_value_date(E, rng, p['eff'], epay)
+    idx_dc = base_dc
+    ft = rng.choice([FT.CONTINUOUS, FT.ANNUAL, FT.SEMI_ANNUAL, FT.QUARTERLY])
+    if rng.random() < 0.7 or zero:
+        r0 = rng.choice([rng.uniform(0.005, 0.09), rng.uniform(-0.01, 0.05)])
+        curve, lab = E.DiscountCurveFlat(vd, r0, ft, idx_dc), f'flat/{ft.name}/{idx_dc.name}/{r0:.6f}'
+    else:
+        lab, curve = draw_curve(E, rng, [], vd, vd)
+        if curve.value_dt != vd:
+            r0 = rng.uniform(0.0, 0.06)
+            curve, lab = E.DiscountCurveFlat(vd, r0, ft, idx_dc), f'flat/{ft.name}/{idx_dc.name}/{r0:.6f}'
+    if zero or rng.random() < 0.55:
+        idx, pass_idx, ilab = curve, None, 'same'
+    else:
+        r1 = rng.uniform(0.0, 0.08)
+        idc = DT[rng.choice(SAFE_DCS)]
+        idx = E.DiscountCurveFlat(vd, r1, rng.choice([FT.CONTINUOUS, FT.ANNUAL]), idc)
+        pass_idx, ilab = idx, f'flat/{idc.name}/{r1:.6f}'
+    if zero or rng.random() < 0.6:
+        dv, pass_dv, dlab = E.DiscountCurveFlat(vd, 0), None, 'none'
+    else:
+        q1 = rng.uniform(0.0, 0.05)
+        dv = E.DiscountCurveFlat(vd, q1)
+        pass_dv, dlab = dv, f'flat/{q1:.6f}'
+    cur = None if (zero or rng.random() < 0.6) else strike * rng.uniform(0.7, 1.4)
+    ff = None if (zero or rng.random() < 0.7) else rng.uniform(-0.005, 0.05)
+    price = strike if cur is None else cur
+    case = dict(case, value_dt=(vd.d, vd.m, vd.y), curve=lab, index_curve=ilab, dividend_curve=dlab, current_price=cur,
+                first_fixing=ff, zero_case=zero)
+    dfT, idxT, dvT = DfTable(curve), (None), DfTable(dv)
+    idxT = dfT if idx is curve else DfTable(idx)
+    multiple = int(annual_frequency(p['rate_freq']) // annual_frequency(p['eq_freq']))
+    is_multiple = int(annual_frequency(p['rate_freq']) % annual_frequency(p['eq_freq'])) == 0
+    v, impl_err = call(lambda: sw.value(vd, curve, pass_idx, pass_dv, cur, ff))
+    own_err = None
+    try:
+        erows, eias, resets = own_equity(E, eper, vd, dfT, idxT, dvT, idx.dc_type, price, qty, N0)
+        if not is_multiple:
+            raise E.FinError('Invalid frequency type assigned!')
+    except Exception as e:  # noqa: BLE001
+        own_err = err_kind(e)
+    T.add(comp + ':freq-not-multiple', int(not is_multiple))
+    if own_err is None:
+        # the rate leg on the notional of the equity period each of its periods lies in
+        exp_not, ks, unresolved = [], [], 0
+        for j, (a, b, pay, yf) in enumerate(rper):
+            kq = containing_period(eper, a, b)
+            ks.append(kq)
+            if pay > vd:
+                if kq is None or resets[kq] is None:
+                    unresolved += 1
+                    exp_not.append(None)
+                else:
+                    exp_not.append(resets[kq])
+            else:
+                exp_not.append(N0)        # immaterial: the period is paid
+        try:
+            rrows, rias = own_float(E, rper, vd, dfT, idxT, idx.dc_type, ff, spread,
+                                    [x if x is not None else float('nan') for x in exp_not])
+        except Exception as e:  # noqa: BLE001
+            own_err = err_kind(e)
+    if impl_err or own_err:
+        T.add(comp + ':value-error')
+        # a zero index-basis year fraction is inf/nan on NumPy scalars (no exception): the frequency test then still raises
+        zd_then_freq = own_err == 'E:ZeroDivisionError' and impl_err == 'E:FinError' and not is_multiple
+        if not zd_then_freq and not same_outcome(impl_err, own_err, v if impl_err is None else None):
+            ctx.violation(f'{comp}: value() outcome {impl_err} but own reading gives {own_err}', case, clause='value-error')
+        elif own_err == 'E:FinError' and not is_multiple:
+            B.model(f'EQS {int(eqIsPay)} {f2b(strike)} {f2b(qty)} {f2b(spread)} {int(annual_frequency(p["eq_freq"]))} '
+                    f'{int(annual_frequency(p["rate_freq"]))} {enc_opt(cur)} {enc_opt(ff)} {ser(vd)} 0 0 0 0 0',
+                    lambda o, op: None if o == 'E:FinError' else tie_broken(ctx, T, comp, f'model `{o}` vs impl FinError (frequency test) on {case}'))
+        return 0
+    sgn = -1.0 if eqIsPay else 1.0
+    n_e, n_r = len(eper), len(rper)
+    live_r = [j for j in range(n_r) if rper[j][2] > vd]
+    live_e = [k_ for k_ in range(n_e) if eper[k_][2] > vd]
+    e_eq = sgn * math.fsum(r[6] for r in erows)
+    scale = math.fsum(abs(r[6]) for r in erows) + math.fsum(abs(r[3]) for r in rrows if r[3] == r[3]) + abs(N0) * 1e-6
+    veq, vrt = float(sw.equity_leg_value), float(sw.rate_leg_value)
+    if not close(v, veq + vrt, scale, 1e-13):
+        ctx.violation(f'{comp}: value is not equity leg value + rate leg value', dict(case, value=v, equity=veq, rate=vrt),
+                      clause='value=equity+rate')
+    if not close(veq, e_eq, scale):
+        ctx.violation(f'{comp}: equity leg value is not the discounted sum of the changes of the position value after the valuation date',
+                      dict(case, impl=veq, expected=e_eq, n_live=len(live_e), n=n_e), clause='value=sum(equity leg)')
+    # equity leg rows
+    for k_ in range(n_e):
+        r = erows[k_]
+        im = (float(el.fwd_rates[k_]), float(el.div_fwd_rates[k_]), float(el.eq_fwd_rates[k_]), float(el.last_notionals[k_]),
+              float(el.payment_amounts[k_]), float(el.payment_dfs[k_]), float(el.payment_pvs[k_]))
+        tol = (1e-4, 1e-4, 1e-4, abs(N0) * 1e-4, abs(N0) * 1e-4, 0.0, abs(N0) * 1e-4)
+        if not all(close(im[i], r[i], tol[i]) for i in range(7)):
+            ctx.violation(f'{comp}: equity leg row {k_} is not (fwd, div fwd, equity fwd, reset notional, change of position value, df, pv)',
+                          dict(case, k=k_, impl=im, expected=r), clause='rows(equity leg)' if eper[k_][2] > vd else 'past-flows')
+            break
+    # ---- the rate leg's notional array
+    impl_arr = [float(x) for x in rl.notional_array]
+    impl_last = [float(x) for x in el.last_notionals]
+    as_coded = [impl_last[i // multiple] for i in range(multiple * n_e)] if multiple > 0 else []
+    array_is_repeat = len(impl_arr) == len(as_coded) and all(a_ == b_ for a_, b_ in zip(impl_arr, as_coded))
+    misaligned = [j for j in live_r if exp_not[j] is not None and multiple > 0 and j // multiple != ks[j]]
+    T.add(comp + ':multiple>1', int(multiple > 1))
+    T.add(comp + ':front-aligned-blocks-differ-from-containing-period', int(bool(misaligned)))
+    T.add(comp + ':unresolved-rate-periods', int(unresolved > 0))
+    flagged = False
+    for j in live_r:
+        if exp_not[j] is None:
+            continue
+        used = impl_arr[j] if j < len(impl_arr) else float('nan')
+        e_amt = rrows[j][1]
+        if not close(used, exp_not[j], 0.0, 1e-12) or not close(float(rl.payments[j]), e_amt, abs(exp_not[j]) * 1e-9):
+            fnd = FND_EQ if (array_is_repeat and j in misaligned and j < len(as_coded) and used == as_coded[j]) else None
+            ctx.violation(f'{comp}: rate period {j} does not accrue on the reset notional of the equity period it lies in '
+                          f'(flow ≠ accrual × (index forward + spread) × that notional)',
+                          dict(case, j=j, accrual=(str(rper[j][0]), str(rper[j][1])), equity_period=ks[j],
+                               equity_accrual=(str(eper[ks[j]][0]), str(eper[ks[j]][1])), notional_used=used,
+                               reset_notional=exp_not[j], flow=float(rl.payments[j]), expected_flow=e_amt,
+                               multiple=multiple, reset_notionals=impl_last, notional_array=impl_arr),
+                          finding=fnd, clause='rate-notional=reset-notional-of-containing-equity-period')
+            flagged = True
+            break
+    # the rate leg's value as the discounted sum on the expected notionals
+    rate_as_coded = None
+    if unresolved == 0:
+        e_rt = -sgn * math.fsum(r[3] for r in rrows)
+        if not close(vrt, e_rt, scale):
+            try:
+                rc, _ = own_float(E, rper, vd, dfT, idxT, idx.dc_type, ff, spread, (impl_arr + [N0] * n_r)[:n_r])
+                rate_as_coded = -sgn * math.fsum(r[3] for r in rc)
+            except Exception:  # noqa: BLE001
+                rate_as_coded = None
+            fnd = FND_EQ if (array_is_repeat and misaligned and rate_as_coded is not None and close(vrt, rate_as_coded, scale)) else None
+            ctx.violation(f'{comp}: rate leg value is not the discounted sum of accrual × (forward + spread) × reset notional of the '
+                          f'containing equity period',
+                          dict(case, impl=vrt, expected=e_rt, as_coded=rate_as_coded, multiple=multiple), finding=fnd,
+                          clause='value=sum(rate leg)')
+            flagged = True
+    # ---- worth zero at inception: no spread, no dividends, one curve, matching bases, lag 0, price = strike, all to be paid,
+    #      every equity period tiled by rate periods
+    tiled = unresolved == 0 and len(live_r) == n_r and len(live_e) == n_e and all(
+        [rper[j][0] for j in range(n_r) if ks[j] == k_][:1] == [eper[k_][0]]
+        and [rper[j][1] for j in range(n_r) if ks[j] == k_][-1:] == [eper[k_][1]] for k_ in range(n_e)) and all(
+        rper[j][1] == rper[j + 1][0] for j in range(n_r - 1))
+    zero_ok = (spread == 0.0 and pass_dv is None and idx is curve and ff is None and cur is None and p['eq_lag'] == 0
+               and p['rate_lag'] == 0 and p['eq_dc'] == idx.dc_type and p['rate_dc'] == idx.dc_type and tiled)
+    if zero_ok:
+        T.add(comp + ':zero-at-inception-checked')
+        if not close(v, 0.0, scale):
+            fnd = FND_EQ if (array_is_repeat and misaligned and rate_as_coded is not None and close(vrt, rate_as_coded, scale)) else None
+            ctx.violation(f'{comp}: a spread-free, dividend-free equity swap with matching bases on one curve is not worth zero at inception',
+                          dict(case, value=v, equity=veq, rate=vrt, multiple=multiple), finding=fnd, clause='zero-at-inception')
+    # ---- model: equity leg rows (hand model + generated loop body), swap value + the notional array itself
+    impl_erows = [(float(el.fwd_rates[i]), float(el.div_fwd_rates[i]), float(el.eq_fwd_rates[i]), float(el.last_notionals[i]),
+                   float(el.payment_amounts[i]), float(el.payment_dfs[i]), float(el.payment_pvs[i]), float(el.cumulative_pvs[i]))
+                  for i in range(n_e)]
+
+    def cb_eql(which):
+        def cb(o, op):
+            xs = parse_floats(o) if not o.startswith(('E:', 'bad')) else None
+            tol = (1e-4, 1e-4, 1e-4, abs(N0) * 1e-4, abs(N0) * 1e-4, 0.0, scale, scale)
+            ok = xs is not None and len(xs) == 1 + 8 * n_e and close(xs[0], veq, scale) and all(
+                close(xs[1 + 8 * i + j], r[j], tol[j]) for i, r in enumerate(impl_erows) for j in range(8))
+            if not ok:
+                tie_broken(ctx, T, comp, f'equity leg value/rows: {which} ≠ implementation (answer `{o[:40]}`, impl {veq}) on {case}')
+        return cb
+    # index-basis year fraction of EVERY period (the model's index curve is one function of the two dates: an equity
+    # period already paid and a rate period still to be paid may share their dates when the lags differ)
+    _dcc = E.DayCount(idx.dc_type)
+    eias = [float(_dcc.year_frac(a, b)[0]) for a, b, _, _ in eper]
+    payload = (f'{int(eqIsPay)} {f2b(strike)} {f2b(qty)} {enc_opt(cur)} {ser(vd)} {enc_eperiods(eper, eias)} '
+               f'{dfT.enc()} {idxT.enc()} {dvT.enc()}')
+    B.model('EQL ' + payload, cb_eql('hand model'))
+    B.gen('GEQ ' + payload, cb_eql('fold of the GENERATED loop body (Gen/SwapsF.equity_leg_step)'))
+
+    def cb_eqs(o, op):
+        xs = parse_floats(o) if not o.startswith(('E:', 'bad')) else None
+        if xs is None or len(xs) != 3 + len(impl_arr):
+            tie_broken(ctx, T, comp, f'EquitySwap model answered `{o[:60]}` ({len(impl_arr)} notionals in the implementation) on {case}')
+            return
+        bad = [nm for nm, m, i_ in (('value', xs[0], v), ('equity leg', xs[1], veq), ('rate leg', xs[2], vrt)) if not close(m, i_, scale)]
+        if any(not close(a_, b_, 0.0, 1e-12) for a_, b_ in zip(xs[3:], impl_arr)):
+            bad.append('notional_array (repeat each reset notional `multiple` times)')
+        if bad:
+            tie_broken(ctx, T, comp, f'EquitySwap model≠implementation on {bad} (model array {xs[3:11]}, impl array {impl_arr[:8]}) on {case}')
+    rias2 = [float(_dcc.year_frac(a, b)[0]) for a, b, _, _ in rper]
+    B.model(f'EQS {int(eqIsPay)} {f2b(strike)} {f2b(qty)} {f2b(spread)} {int(annual_frequency(p["eq_freq"]))} '
+            f'{int(annual_frequency(p["rate_freq"]))} {enc_opt(cur)} {enc_opt(ff)} {ser(vd)} {enc_eperiods(eper, eias)} '
+            f'{enc_fperiods(rper, rias2, [N0] * n_r)} {dfT.enc()} {idxT.enc()} {dvT.enc()}', cb_eqs)
+
+    # ---- spec: the equity leg as a flow list; the repeat structure of the array
+    def cb_spec(o, op):
+        if o.startswith(('E:', 'bad')) or not close(b2f(o), veq, scale):
+            ctx.violation(f'{comp}: equity leg disagrees with the specification (discounted changes of the position value)',
+                          dict(case, impl=veq, spec=o), clause='value=sum(equity leg, spec-driver)')
+    B.spec(f'EQ {int(eqIsPay)} {ser(vd)} {f2b(price)} {f2b(qty)} {f2b(N0)} {enc_eperiods(eper, eias)} {dfT.enc()} {idxT.enc()} {dvT.enc()}',
+           cb_spec)
+    if multiple > 0 and impl_arr and not misaligned:
+        jj = rng.randrange(len(impl_arr))
+
+        def cb_rn(o, op):
+            if o.startswith(('E:', 'bad', 'none')) or b2f(o) != impl_arr[jj]:
+                ctx.violation(f'{comp}: notional_array[{jj}] is not the reset notional of equity period {jj} // {multiple} '
+                              f'(each reset notional repeated `multiple` times)',
+                              dict(case, j=jj, multiple=multiple, impl=impl_arr[jj], spec=o, reset_notionals=impl_last,
+                                   notional_array=impl_arr), clause='notional-array-repeat(spec-driver)')
+        B.spec(f'RN {multiple} {jj} {len(impl_last)} ' + ' '.join(f2b(x) for x in impl_last), cb_rn)
+    # ---- pay = -receive, linear in the quantity
+    v_opp, eo = call(lambda: build(isPay=not eqIsPay).value(vd, curve, pass_idx, pass_dv, cur, ff))
+    if eo or not close(v_opp, -v, scale, 1e-13):
+        ctx.violation(f'{comp}: pay-equity value is not minus receive-equity value', dict(case, this=v, opposite=v_opp, err=eo),
+                      clause='pay=-receive')
+    kq = rng.choice([2.0, 0.5, 3.0])
+    v_k, ek = call(lambda: build(quantity=kq * qty).value(vd, curve, pass_idx, pass_dv, cur, ff))
+    if ek or not close(v_k, kq * v, kq * scale):
+        ctx.violation(f'{comp}: value is not linear in the quantity', dict(case, k=kq, v=v, v_k=v_k, err=ek), clause='linear-notional')
+    T.add(comp + ':vd=eff', int(vd == p['eff']))
+    T.add(comp + ':vd<eff', int(vd < p['eff']))
+    T.add(comp + ':dividends', int(pass_dv is not None))
+    T.add(comp + ':current-price', int(cur is not None))
+    T.add(comp + ':dual-curve', int(idx is not curve))
+    T.add(comp + ':first-fixing', int(ff is not None))
+    T.add(comp + ':stub', int(n_r != multiple * n_e))
+    return 1 if (live_e or live_r) else 0
+
+
+def E_ReturnTypes(E):
+    from financepy.utils.global_types import ReturnTypes
+    return ReturnTypes
 
 
 # --------------------------------------------------------------------------- deposit, FRA
@@ -1382,7 +1824,31 @@ def witnesses(ctx, E):
             if e1 or e0 or not close(v1 - v0, exp, 1e6, 1e-10):
                 ctx.violation('witness: the principal passed to SwapFloatLeg is not exchanged on the last payment date',
                               {'tag': 'witness/principal', 'with': v1, 'without': v0, 'expected_difference': exp}, clause='principal-argument')
-        n = 8
+        # equity swap: rate notionals are laid out in front-aligned blocks of `multiple`; with a front stub the blocks
+        # are not the equity periods
+        from financepy.products.equity.equity_swap import EquitySwap
+        from financepy.utils.global_types import ReturnTypes
+        wd = D_(17, 6, 2022)
+        wc = E.DiscountCurveFlat(wd, 0.05, FT.ANNUAL, DT.ACT_365F)
+        es = EquitySwap(wd, D_(17, 12, 2023), ST.RECEIVE, FT.ANNUAL, DT.ACT_365F, 80.0, 125000.0, 0, ReturnTypes.TOTAL_RETURN,
+                        FT.QUARTERLY, DT.ACT_365F, 0.0, 0)
+        v, e = call(lambda: es.value(wd, wc, wc))
+        if e is None:
+            arr, last = [float(x) for x in es.rate_leg.notional_array], [float(x) for x in es.equity_leg.last_notionals]
+            j = 3                                   # accrues 19-DEC-2022 -> 20-MAR-2023, inside equity period 1
+            inside = (es.equity_leg.start_accd_dts[1] <= es.rate_leg.start_accrued_dts[j]
+                      and es.rate_leg.end_accrued_dts[j] <= es.equity_leg.end_accd_dts[1])
+            if inside and len(last) == 2 and arr[j] == last[0] and last[0] != last[1] and abs(v) > 1.0:
+                ctx.violation('witness: 18M equity swap (annual resets, quarterly rate leg, front stub): rate period 3 lies in the second '
+                              f'equity period but accrues on the first reset notional; worth {v:.2f} at inception instead of 0',
+                              {'tag': 'witness/equity-front-stub', 'value': v, 'notional_array': arr, 'reset_notionals': last},
+                              finding=FND_EQ, clause='rate-notional=reset-notional-of-containing-equity-period')
+            elif not (inside and abs(v) <= 1e-3):
+                ctx.violation('witness: 18M equity swap with a front stub', {'tag': 'witness/equity-front-stub', 'value': v, 'inside': inside},
+                              clause='zero-at-inception')
+        else:
+            ctx.violation(f'witness: EquitySwap.value raised {e}', {'tag': 'witness/equity-front-stub'}, clause='value-error')
+        n = 9
     ctx.count('witnesses', n, n, sample={'what': 'witnesses of findings/C06.json replayed on the implementation'})
 
 
@@ -1416,7 +1882,7 @@ def run_component(ctx, E, pool, B, T, comp, fn, n, drivers_ok, spec_ok):
                               clause='hang')
             finally:
                 signal.alarm(0)
-            if len(B.model_ops) + len(B.spec_ops) > 6000:
+            if len(B.model_ops) + len(B.spec_ops) + len(B.gen_ops) > 6000:
                 B.flush(ctx, drivers_ok, spec_ok)
     finally:
         signal.signal(signal.SIGALRM, old)
@@ -1433,14 +1899,24 @@ COMPONENTS = [
     ('ibor_swap', ibor_swap_case, 300, 2400),
     ('ois', ois_case, 150, 1200),
     ('basis_swap', basis_case, 60, 500),
+    ('equity_swap', equity_swap_case, 160, 1300),
     ('deposit', deposit_case, 120, 1000),
     ('fra', fra_case, 120, 1000),
 ]
 
 
 def run(ctx):
-    drivers_ok = C.lean_stage(ctx, GEN, PROPS, DRIVERS + SPEC_DRIVERS, extra_files=EXTRA_FILES)
-    spec_ok = True
+    all_ok = C.lean_stage(ctx, GEN, PROPS, DRIVERS + GEN_DRIVERS + SPEC_DRIVERS, extra_files=EXTRA_FILES)
+    # which drivers built: the hand-model driver and the spec driver import nothing generated and survive any change of
+    # the source; the generated-loop driver needs Gen/SwapsF
+    failed = set()
+    if not all_ok:
+        for b in ctx.broken:
+            if b.startswith('model: the executable model'):
+                failed |= set(x.strip() for x in b.split(': ')[-1].split(','))
+    drivers_ok = not any(d in failed for d in DRIVERS)
+    spec_ok = not any(d in failed for d in SPEC_DRIVERS)
+    Batch.gen_ok = not any(d in failed for d in GEN_DRIVERS)
     E = load_env(ctx)
     pool = make_pool(E, ctx.rng('pool'))
     B, T = Batch(), Tally()
@@ -1455,12 +1931,18 @@ def run(ctx):
         'df(date) (C02) are inputs here: the harness recomputes them through the public API and feeds them to model '
         'and spec',
         'frequencies ZERO / SIMPLE / CONTINUOUS are not generated: Schedule does not terminate on them (C16)',
+        'the loop bodies, after-loop blocks, pv01 / swap_rate methods and deposit / FRA values of the hand model are proved equal '
+        'to the functions the translator generates from the current source (Props/C06e); the fold skeleton around them '
+        '(initial values, order of the periods, notional fill) is tied by the correspondence only',
+        'cross-currency swap classes (products/rates/swaps/Fin*XCcySwap.py) do not import in this tree (legacy module paths): '
+        'a leg with notional exchange is SwapFixedLeg / SwapFloatLeg with `principal`, which is modelled',
     ]
     return C.finish(ctx, 'proof',
                     'lake build ' + ' '.join(PROPS) + ' && lake env lean .cache/audit/Audit_C06.lean',
                     C.TRUSTED_BASE_COMMON + ['Spec: FinVerif/Spec/C06.lean (Σ accrual×rate×notional×df(pay)/df(value date) over '
                                              'flows paid after the value date)',
-                                             'hand-written model FinVerif/Model/C06.lean, tied to the code by the correspondence'],
+                                             'hand-written model FinVerif/Model/C06.lean + C06x.lean, tied to the code by the correspondence and, for the loop bodies, '
+                                             'by Props/C06e against Gen/SwapsR (regenerated from the source every run)'],
                     RULE)
 
 
@@ -1533,7 +2015,10 @@ def replay(ctx, path):
     B, T = Batch(), Tally()
     with warnings.catch_warnings():
         warnings.simplefilter('ignore')
-        fns[comp](ctx, E, ctx.rng(tag), pool, B, T, tag)
+        if comp == 'witness':
+            witnesses(ctx, E)
+        else:
+            fns[comp](ctx, E, ctx.rng(tag), pool, B, T, tag)
     B.flush(ctx, True, True)
     for x in ctx.violations:
         print('replay:', x['what'], json.dumps(x['case'], default=str))
